@@ -140,6 +140,15 @@ def one_case(ctx, out, cfg, spec, tree, cls, km_name, vm_name, compression, use_
             path = os.path.join(tmpdir, f"t{next(counter)}.nutree")
             tree.save(path, compression=compression, **kw)
             doc = read_doc(path, True)
+        elif next(counter) % 3 == 0:
+            # an open text stream with a narrow encoding (the application opened the file): the document must get through
+            path = os.path.join(tmpdir, f"a{next(counter)}.nutree")
+            enc = ["ascii", "latin-1", "cp1252"][next(counter) % 3]
+            with open(path, "w", encoding=enc) as fp:
+                tree.save(fp, **kw)
+            with open(path, encoding=enc) as fp:
+                doc = read_doc(fp.read(), False)
+            out.dist["stream_encoding:" + enc] += 1
         else:
             fp = io.StringIO()
             tree.save(fp, **kw)
